@@ -35,8 +35,60 @@ def check_sat(assertions, timeout_ms=500):
     return str(r)
 
 
+_sk = [0]
+
+
+def split_goal(goal, depth=0):
+    """goal -> list of (extra hypotheses, subgoal): conjunctions are split, universally quantified goals are skolemised
+    with fresh constants, iff is split into two implications, implications move their antecedent to the hypotheses"""
+    out = []
+    if depth > 6:
+        return [([], goal)]
+    if z3.is_quantifier(goal) and goal.is_forall():
+        n = goal.num_vars()
+        consts = []
+        for i in range(n):
+            _sk[0] += 1
+            consts.append(z3.Const(f"sk!{goal.var_name(i)}!{_sk[0]}", goal.var_sort(i)))
+        body = z3.substitute_vars(goal.body(), *reversed(consts))
+        return split_goal(body, depth + 1)
+    if z3.is_and(goal):
+        for ch in goal.children():
+            out.extend(split_goal(ch, depth + 1))
+        return out
+    if z3.is_implies(goal):
+        a, b = goal.children()
+        return [([a] + h, g) for h, g in split_goal(b, depth + 1)]
+    if z3.is_eq(goal) and z3.is_bool(goal.arg(0)) and not (z3.is_true(goal.arg(1)) or z3.is_false(goal.arg(1))) and depth < 4:
+        a, b = goal.arg(0), goal.arg(1)
+        if z3.is_quantifier(a) or z3.is_quantifier(b) or z3.is_and(a) or z3.is_and(b) or z3.is_or(a) or z3.is_or(b):
+            return [([a] + h, g) for h, g in split_goal(b, depth + 1)] + [([b] + h, g) for h, g in split_goal(a, depth + 1)]
+    return [([], goal)]
+
+
 def discharge(axioms, pc, goal, timeout_ms=None, both=False):
-    """prove  axioms /\\ pc  ==>  goal"""
+    """prove  axioms /\\ pc  ==>  goal   (goal split into sub-goals; all must be proved; the first refuted one is reported)"""
+    parts = split_goal(goal)
+    if len(parts) <= 1:
+        return discharge1(axioms, pc, goal, timeout_ms, both)
+    t0 = time.time()
+    worst = None
+    backends = set()
+    for hyps, g in parts:
+        r = discharge1(axioms, list(pc) + hyps, g, timeout_ms, both)
+        backends.add(r.backend)
+        if r.status == "refuted":
+            r.secs = time.time() - t0
+            return r
+        if r.status == "undecided" and worst is None:
+            worst = r
+    if worst is not None:
+        worst.secs = time.time() - t0
+        return worst
+    return Result("discharged", "+".join(sorted(b for b in backends if b)), time.time() - t0)
+
+
+def discharge1(axioms, pc, goal, timeout_ms=None, both=False):
     timeout_ms = timeout_ms or QUICK_MS
     t0 = time.time()
     s = _solver(timeout_ms)
